@@ -212,12 +212,14 @@ fn token(rng: &mut Rng, min: usize, max: usize) -> Vec<u8> {
 
 pub fn gen_target(rng: &mut Rng) -> Vec<u8> {
     let mut t = vec![b'/'];
-    let n = match rng.below(6) {
-        0 => 0,
-        1 => 1,
-        2 | 3 => rng.range(2, 24),
-        4 => rng.range(25, 200),
-        _ => rng.range(200, 900),
+    let n = match rng.below(13) {
+        0 | 1 => 0,
+        2 | 3 => 1,
+        4 | 5 | 6 | 7 => rng.range(2, 24),
+        8 | 9 => rng.range(25, 200),
+        10 | 11 => rng.range(200, 900),
+        // around the sizes a fixed buffer would have, up to what fits a frame
+        _ => *rng.pick(&[255u64, 256, 511, 512, 1023, 1024, 1025, 2047, 2048, 3000]),
     } as usize;
     let style = rng.below(4);
     for _ in 0..n {
@@ -272,12 +274,16 @@ pub fn gen_valid(rng: &mut Rng) -> Vec<u8> {
     out.push(b'.');
     out.extend_from_slice(min.as_bytes());
     nl(rng, &mut out);
-    let nh = match rng.below(5) {
+    let mut nh = match rng.below(5) {
         0 => 0,
         1 => 1,
         2 | 3 => rng.range(2, 5),
         _ => rng.range(6, 20),
     };
+    if out.len() > 1000 {
+        // keep the whole request inside one frame of the capture size
+        nh = nh.min(2);
+    }
     for _ in 0..nh {
         let name = match rng.below(6) {
             0 => b"Host".to_vec(),
